@@ -282,8 +282,55 @@ def unit_canary():
     return Unit('canary/chain-rule-without-outer-factor', run, kind='canary', expect='refuted')
 
 
+def unit_quadratic_form(kind):
+    """QuadraticForm built through its real constructor: value == <x, A x> + <b, x> + c, and the is_linear flag (which switches the
+    `f * s` shortcut of Functional.__mul__ from f(s x) to s f(x)) is set only when the functional really is linear (no operator, c == 0)"""
+    def run(ctx):
+        I = ctx.I
+
+        def path(st):
+            flib.install(st, 'gram')
+            fr = ip.Frame(st)
+            X = makers.tspace(I, st, 'X', 'real')
+            c = om.sym_scalar('c', 'real') if kind != 'vector_only_zero_const' else 0.0
+            A = AbsOp(I, 'A', X, X, True) if kind == 'operator' else None
+            b = X.element('b')
+            try:
+                q = I.call(I.get_class(DF + 'QuadraticForm'), [], {'operator': A.op if A else None, 'vector': b, 'constant': c}, fr)
+                lin = get(I, fr, q, 'is_linear')
+                x = VVar('x', 'real')
+                val = oplib.sem_by_execution(I, fr, q, x)
+                s_ = om.sym_scalar('s', 'real')
+                st.assume(core.s_not(core.sc_eq(s_, 0)))
+                scaled = I.call(get(I, fr, q, '__mul__'), [s_], {}, fr)
+                sval = oplib.sem_by_execution(I, fr, scaled, x) if isinstance(scaled, ip.Obj) else None
+            except ip.PyRaise as e:
+                return ('raise', e.exc)
+            return ('ok', dict(lin=lin, val=val, c=c, A=A, b=b, X=X, fr=fr, x=x, s=s_, sval=sval))
+        info = {'kind': kind}
+        for st, (status, r) in ctx.explore(path):
+            if status == 'raise':
+                ctx.fail(st, 'no_raise', 'raises %s' % lib.exc_desc(r), info)
+                continue
+            fr, X, x = r['fr'], r['X'], r['x']
+            ip_ = lambda a, b_: inner(I, fr, X.space, a, b_)
+
+            def spec(v):
+                t = ip_(v, content(r['b'])) + r['c']
+                if r['A'] is not None:
+                    t = t + ip_(v, sem(I, fr, r['A'].op, v))
+                return t
+            ctx.prove(st, 'value == <x, A x> + <b, x> + c', core.sc_eq(r['val'], spec(x)), info)
+            really_linear = core.sbool(core.sc_eq(r['c'], 0)) if r['A'] is None else core.sbool(False)
+            ctx.prove(st, 'is_linear only if the functional is linear (no operator and c == 0)', core.s_or(core.s_not(core.sbool(bool(r['lin']))), really_linear), info)
+            if r['sval'] is not None:
+                ctx.prove(st, '(f * s)(x) == f(s x)  (documented right scalar multiplication, also through the linear shortcut)', core.sc_eq(r['sval'], spec(v_mul(r['s'], x))), info)
+    return Unit('builtin/quadratic_form/%s' % kind, run, funcs=[DF + 'QuadraticForm.__init__', DF + 'QuadraticForm._call', FN + 'Functional.__mul__'], config={'kind': kind})
+
+
 def units(tier, seed):
     us = [unit_derived(k) for k in KINDS]
+    us += [unit_quadratic_form(k) for k in ('vector_only', 'vector_only_zero_const', 'operator')]
     us += [unit_overload(d) for d in ('__mul__', '__rmul__', '__add__', '__sub__')]
     us.append(unit_canary())
     return us
